@@ -482,6 +482,14 @@ pub fn scenarios(thorough: bool, rng: &mut StdRng) -> Vec<Scenario> {
       vec![(1, vec![Push(1)])]);
     s("pattern-inflight-forced", 2, 1, vec![NewInjector(1), Reparse(1), RuleAfter("w1", "atomic.fetch_add", "w1", "", "pool", "run.end"), StartWriter(0), WaitQuiet, Tick(50), JoinWriters, DrainNotified(10)],
       vec![(1, vec![Push(1)])]);
+    // ... and with a second writer whose later indices are published, scanned and harvested while the first writer's
+    // lower index is still in flight: the late item must end up where a from-scratch run puts it (C07-13)
+    s("empty-pattern-inflight-forced-2", 1, 1, vec![NewInjector(1), NewInjector(2), RuleAfter("w1", "atomic.fetch_add", "w1", "", "pool", "run.end"), StartWriter(0), WaitQuiet, StartWriter(1),
+        WaitQuiet, Tick(50), JoinWriters, DrainNotified(10)],
+      vec![(1, vec![Push(1)]), (2, vec![Push(2), Push(3)])]);
+    s("pattern-inflight-forced-2", 2, 1, vec![NewInjector(1), NewInjector(2), Reparse(1), RuleAfter("w1", "atomic.fetch_add", "w1", "", "pool", "run.end"), StartWriter(0), WaitQuiet, StartWriter(1),
+        WaitQuiet, Tick(50), JoinWriters, DrainNotified(10)],
+      vec![(1, vec![Push(1)]), (2, vec![Push(2), Push(3)])]);
     // an append edit that cancels a scan in progress, then quiescence without any non-append edit
     s("append-cancels-scan", 3, 1, vec![NewInjector(1), StartWriter(0), JoinWriters, Reparse(1), Tick(0), Reparse(2), Tick(0), Drain(10)],
       vec![(1, vec![Extend(vec![0, 1, 3, 7, 8, 9, 10, 12, 13, 15, 19, 20])])]);
@@ -494,6 +502,14 @@ pub fn scenarios(thorough: bool, rng: &mut StdRng) -> Vec<Scenario> {
     s("restart-cancel-before-run", 2, 1, vec![NewInjector(1), Reparse(1), StartWriter(0), JoinWriters, Drain(10), Restart(false), NewInjector(2), StartWriter(1), JoinWriters,
         RuleAfter("main", "tick.spawn", "pool", "", "main", "tick.lock"), Tick(0), Reparse(2), Tick(0), Drain(10)],
       vec![(1, vec![Extend(vec![2, 0, 14, 1, 5, 3])]), (2, vec![Extend(vec![1000, 1001, 1003, 1007, 1008, 1009, 1012, 1013])])]);
+    // ... the same with a new stream that is shorter than the old one: bookkeeping of the old stream (scan position, match
+    // indices) that survives into the first real run over the new stream points past its end (C12-13)
+    s("restart-cancel-before-run-shorter", 2, 1, vec![NewInjector(1), Reparse(1), StartWriter(0), JoinWriters, Drain(10), Restart(false), NewInjector(2), StartWriter(1), JoinWriters,
+        RuleAfter("main", "tick.spawn", "pool", "", "main", "tick.lock"), Tick(0), Reparse(2), Tick(0), Drain(10)],
+      vec![(1, vec![Extend(vec![2, 0, 14, 1, 5, 3, 7, 9])]), (2, vec![Extend(vec![1000, 1003])])]);
+    s("restart-clear-cancel-before-run-shorter", 1, 1, vec![NewInjector(1), Reparse(1), StartWriter(0), JoinWriters, Drain(10), Restart(true), NewInjector(2), StartWriter(1), JoinWriters,
+        RuleAfter("main", "tick.spawn", "pool", "", "main", "tick.lock"), Tick(0), Reparse(12), Tick(0), Drain(10)],
+      vec![(1, vec![Extend(vec![2, 0, 14, 1, 5, 3, 7, 9])]), (2, vec![Push(1001), Push(1002)])]);
     // handle bookkeeping
     s("handles", 1, 1, vec![NewInjector(1), CloneInjector(2, 1), Dump, DropInjector(1), Restart(false), Dump, NewInjector(3), Tick(0), DropInjector(2), Restart(true), Tick(0), NewInjector(4), CloneInjector(5, 4), Restart(false), Restart(false), DropInjector(4), Tick(10), Dump,
       Restart(false), NewInjector(6), Dump, Restart(false), Dump, NewInjector(7), Restart(true), NewInjector(8), CloneInjector(9, 8), Restart(true), Dump, DropInjector(6), DropInjector(8), Dump, Tick(0), Dump], vec![]);
